@@ -225,7 +225,7 @@ def mkdim(exps):
         e = sp.Rational(e)
         if e != 0: d = d * b**e
     return d
-style = {style!r}; seq = {seq!r}; opt = {opt!r}
+style = {style!r}; seq = {seq!r}; opt = {opt!r}; first = {first!r}
 E = {E!r}        # declared dimensions of a, b, c, return (exponent vectors; last slot = angle)
 D = {D!r}        # actual (scale, exponent vector) of a, every b, c, returned value
 def mk(sd): return Quantity(sp.Rational(sd[0]), dimension=mkdim(sd[1]))
@@ -248,6 +248,11 @@ a = mk(D["a"]); c = mk(D["c"])
 b = [mk(x) for x in D["b"]] if seq else mk(D["b"][0])
 want_enter = a_ok and all(b_oks) and c_ok
 want_return = want_enter and r_ok
+if first:
+    # an earlier call with arguments of the same dimensions but other magnitudes
+    try: f(mk(first["a"]), mk(first["b"]), c=mk(first["c"])); print("earlier call returned")
+    except (TypeError, UnitsError) as e: print("earlier call refused:", e)
+    entered.clear()
 try:
     if style == "positional": f(a, 7, b, c=c) if opt else f(a, b, c=c)
     elif style == "keyword": f(a=a, b=b, c=c)
@@ -274,17 +279,23 @@ def part_b(ctx):
     from symplyphysics.core.dimensions import dimensions as DM
     styles = ["positional", "keyword", "reordered", "mixed"]
     seq_lens = [None, 0, 1, 2, 3] if ctx.tier == "thorough" else [None, 0, 2]
-    for style, blen, opt in itertools.product(styles, seq_lens, [False, True]):
+    for style, blen, opt, hist in itertools.product(styles, seq_lens, [False, True], [False, True]):
         if opt and blen not in (None, 2):
             continue
+        if hist and (style != "positional" or blen is not None or opt):
+            continue
         ses = Session(ctx)
-        name = f"B:{style}:b={'scalar' if blen is None else 'seq' + str(blen)}" + (":optional-before-guarded" if opt else "")
+        name = f"B:{style}:b={'scalar' if blen is None else 'seq' + str(blen)}" + (":optional-before-guarded" if opt else "") + (":after-an-earlier-call" if hist else "")
         with ses.active(), rebound(*standard_bindings()):
             Ea, Eb, Ec, Er = (ses.dim(n) for n in ("Ea", "Eb", "Ec", "Er"))
             mk = lambda stem: make_quantity(ses.scalar(stem), ses.dim("D" + stem))
             a, c, r = mk("a"), mk("c"), mk("r")
             b = mk("b") if blen is None else [mk(f"b{i}_") for i in range(blen)]
             entered = []
+            if hist:
+                # an earlier call of the same function with arguments of the SAME dimensions but other magnitudes (a zero magnitude is
+                # admitted whatever its dimension): the verdict on the second call must not depend on it
+                a0, b0, c0 = (make_quantity(ses.scalar(n + "_first"), q_.dimension) for n, q_ in (("a", a), ("b", b), ("c", c)))
 
             if opt:
                 def raw(a, k=7, b=None, *, c):
@@ -294,9 +305,18 @@ def part_b(ctx):
                 def raw(a, b, *, c):
                     entered.append(True)
                     return r
-            f = QD.validate_input(a=Ea, b=Eb, c=Ec)(QD.validate_output(Er)(raw))
+            runs = itertools.count()
 
             def call():
+                # decorated afresh, under a fresh name, for every explored run: whatever a decorator may remember between calls then
+                # comes from THIS run's calls only, as in a fresh process (the replay), never from a previously explored path
+                raw.__name__ = raw.__qualname__ = f"guarded_{next(runs)}"
+                f = QD.validate_input(a=Ea, b=Eb, c=Ec)(QD.validate_output(Er)(raw))
+                if hist:
+                    try:
+                        f(a0, b0, c=c0)
+                    except (TypeError, UnitsError):
+                        pass
                 entered.clear()
                 if style == "positional":
                     return f(a, 7, b, c=c) if opt else f(a, b, c=c)
@@ -372,10 +392,10 @@ def part_b(ctx):
                 elif res == "sat":
                     mv = lambda z: str(model_value(m, z))
                     sd = lambda qq: (mv(ses.z(qq.scale_factor)), [mv(x) for x in to_vec(qq.dimension)])
-                    vals = dict(style=style, seq=blen is not None, opt=opt,
+                    vals = dict(style=style, seq=blen is not None, opt=opt, first=({"a": sd(a0), "b": sd(b0), "c": sd(c0)} if hist else None),
                                 E={"a": model_dims(ses, m, Ea.vec), "b": model_dims(ses, m, Eb.vec), "c": model_dims(ses, m, Ec.vec), "r": model_dims(ses, m, Er.vec)},
                                 D={"a": sd(a), "b": [sd(x) for x in (b if blen is not None else [b])], "c": sd(c), "r": sd(r)})
-                    ctx.violation(f"C04:B:{style}:{'seq' if blen is not None else 'scalar'}{':opt' if opt else ''}:{label}",
+                    ctx.violation(f"C04:B:{style}:{'seq' if blen is not None else 'scalar'}{':opt' if opt else ''}{':history' if hist else ''}:{label}",
                                   f"decorator wiring: path {label} (entered={ent}) contradicts the gate predicate; {vals}", REPLAY_WIRING.format(**vals))
                 else:
                     ctx.ob(pname, "inconclusive", "unknown")
